@@ -202,18 +202,21 @@ def sanctioned_worker_exits(F, sp):
             out.append(('no-more-work', w.branch(c, True)))
     for c in w.calls_to('HasDiscoveries::matches'):
         out.append(('finish_when', w.branch(c, True)))
+    from common import edges_where
+
+    def src_is(v, *names):
+        v = noref(v)
+        c_ = w.call_at(v.key) if v.kind == 'call' else None
+        return c_ is not None and c_.is_(*names)
+    # target.get() <= state_count.load(), in any spelling
+    tsc = edges_where(w, lambda v: src_is(v, 'NonZero::get'), lambda v: src_is(v, 'load'), 'le')
+    if tsc:
+        out.append(('target_state_count', tsc))
+    alld = edges_where(w, lambda v: src_is(v, 'DashMap::len'), lambda v: True, 'eq')
+    if alld:
+        out.append(('all-discovered', alld))
     for sw in w.switches:
         on = sw.on
-        if on.kind == 'bin' and on.key[0] in ('Le', 'Ge', 'Lt', 'Gt', 'Eq'):
-            ops = [noref(x) for x in on.key[1:]]
-            srcs = [w.call_at(o.key) if o.kind == 'call' else None for o in ops]
-            names = [s_.short.split('::')[-1] if s_ is not None else '' for s_ in srcs]
-            if 'load' in names and 'get' in names and on.key[0] in ('Le', 'Ge'):
-                out.append(('target_state_count', sw.edges_for(True)))
-            if 'len' in names and on.key[0] == 'Eq':
-                ln = srcs[names.index('len')]
-                if ln.is_('DashMap::len'):
-                    out.append(('all-discovered', sw.edges_for(True)))
         if on.kind == 'call':
             c = w.call_at(on.key)
             if c is not None and c.is_('Atomic::load', 'AtomicBool::load') and sw.kind == 'bool' and \
